@@ -19,6 +19,40 @@ CHECKS = {
    note="Page layout (cell pointer array -> cells) is covered by correspondence only in this property; the page-level round trip is part of C01.",
    technique="Coq proof (round-trip theorems by induction) + differential execution of the extracted model vs the Go code vs independent oracle",
    design="DESIGN.md section 6, C14"),
+ "C01": dict(
+   text="Coq: the table b-tree traversal equals 'deliver the in-order flattening of the tree to the callback' for every tree shape, depth (<= 31, the code's limit) "
+        "and callback (C01_iter_flat), Table.Scan delivers the decoded rows of that flattening, each once, in tree order (C01_scan_rows, C01_scan_all); the decoding of "
+        "each row is C14's round trip. The row mapping of the high level API (rowid aliases, defaults for short rows, WITHOUT ROWID store order) is part of the executable "
+        "model (Model/High.v) and is tied to the code and to real SQLite on every run: Select on every table of a SQLite-written corpus x many column lists, compared with "
+        "SQLite's own SELECT ... ORDER BY rowid|pk and with the extracted model.",
+   note="The statement 'the flattening of a SQLite-written tree is the table's content in rowid order' rests on SQLite's b-tree invariants, validated by the oracle comparison, not proved. "
+        "Schema interpretation is C10's subject: the model takes the Schema sqlittle computed as an input. Known findings (DEFAULT affinity, INTEGER(n) PRIMARY KEY) are replayed separately.",
+   technique="Coq proof (traversal = flattening, by induction on the depth budget) + differential execution model vs Go vs SQLite",
+   design="DESIGN.md section 6, C01"),
+ "C02": dict(
+   text="Coq: the index b-tree traversal, including entries stored in interior pages, equals 'deliver the in-order flattening' for every tree and callback (C02_iter_flat, "
+        "C02_scan_rows, C02_scan_all). IndexedSelect on rowid and WITHOUT ROWID tables (row lookup per entry, key-column positions by name and collation) is in the executable "
+        "model and is compared on every run with SQLite's ORDER BY <index key columns with collations/directions>, rowid|pk over every index of a SQLite-written corpus "
+        "(partial, expression, unique, automatic, DESC, NOCASE/RTRIM/explicit BINARY, depth 3, interior entries, overflowing keys), twice per handle.",
+   note="Index consistency (one entry per covered row, sorted) is SQLite's invariant, validated by the oracle comparison.",
+   technique="Coq proof (index traversal = flattening) + differential execution model vs Go vs SQLite ORDER BY",
+   design="DESIGN.md section 6, C02"),
+ "C03": dict(
+   text="Coq: Index.ScanEq delivers take_while (Equals key) of the suffix starting at the first entry not less than the key (C03_scan_eq, with Go's sort.Search modelled "
+        "exactly), and that segment is exactly filter (Equals key) of the whole index when the index is laid out less*/equal*/greater* for the key (C03_eq_is_filter). "
+        "IndexedSelectEq / PKSelect with asDbKey (collation and direction per index column) are in the executable model and are compared on every run with SQLite's "
+        "WHERE (+expr COLLATE c) IS ? ... ORDER BY index order, for stored keys, every prefix length and neighbour keys.",
+   note="That a SQLite-written index is laid out less*/equal*/greater* for a key with matching flags follows from C11 (comparison is SQLite's total preorder); the link is validated by the oracle, the three_runs hypothesis is not derived in Coq yet.",
+   technique="Coq proof (ScanEq = filter on a sorted index) + differential execution model vs Go vs SQLite",
+   design="DESIGN.md section 6, C03"),
+ "C04": dict(
+   text="Coq: Table.Rowid on a table tree whose rowids ascend and whose interior keys bound their left subtrees is the lookup among the tree's rows - the stored record if "
+        "present, 'not found' without error if absent - for every rowid in Z (hence all of int64), every depth the code accepts, with Go's sort.Search bisection modelled "
+        "exactly (C04_lookup, C04_descent). Every run: every present rowid (sample in quick), both neighbours, every interior separator key, first/last rowid of every leaf, "
+        "int64 min/max on SQLite-written trees of depth 1-3(4), through Table.Rowid, SelectRowid and PKSelect, against SQLite and against the extracted model.",
+   note="Well-formedness of SQLite-written trees (sep_ok, sortedness) is SQLite's invariant; validated by the oracle comparison.",
+   technique="Coq proof (from-key descent = lookup in the sorted flattening) + differential execution model vs Go vs SQLite",
+   design="DESIGN.md section 6, C04"),
 }
 
 NOT_YET = {}
